@@ -20,6 +20,13 @@ def dom(name, run_mod, nq, nt, model=True):
 
 
 PROPS = {
+    "C03": {
+        "domains": [dom("c03", "Model.RunEnvelope", 5, 60)],
+        "trusted": ["'Forgery' in the theorems is an explicit witness (a successful AEAD opening of a ciphertext never produced under that key/context); Themis' actual unforgeability is outside the theorems",
+                    "the stand-in's tag is a bijective-step hash: every single-bit change is detected, which the tamper enumeration relies on"],
+        "assumptions": ["data-key freshness (dek not among the client's keys) as an explicit premise where needed"],
+        "rule": "for sample protected values of each kind: bit flips (sampled; exhaustive for the first samples in the thorough tier), truncations, extensions, every header field x boundary values (0, small, exact+-1, 2^31, 2^63+-1, 2^64-k), envelope-id/type bytes, splices of two values, swapped/flipped search hashes; at every reveal entry point; each call replayed on the model",
+    },
     "C01": {
         "domains": [dom("c01", "Model.RunEnvelope", 60, 1200)],
         "trusted": ["modelled, not verified: the gRPC/HTTP framing around TranslatorService; key lookup by client id (C02/C06)"],
